@@ -47,7 +47,10 @@ def build_any(rnd, d):
         cls = {"neg": E.NegateExpression, "sgn": E.SgnExpression, "fact": E.FactorialExpression}[k]
         child = E.ConstantExpression(rnd.choice([0, 3, 5])) if k == "fact" else build_any(rnd, d - 1)
         return cls(child, child_on_left=rnd.random() < 0.4)
-    return P.classes()[k](build_any(rnd, d - 1), build_any(rnd, d - 1))
+    l = build_any(rnd, d - 1)
+    # a subtree beside its own clone: two nodes then carry the same id (clone copies ids), as after distributing a factor
+    r = l.clone() if rnd.random() < 0.2 else build_any(rnd, d - 1)
+    return P.classes()[k](l, r)
 
 
 def pow_free(n):
@@ -169,6 +172,21 @@ def run(ctx):
         trees.append((f"random#{i}", build_any(rnd, rnd.randint(1, 4))))
     for i in range(ctx.n(200, 3000)):
         trees.append((f"sexpr#{i}", P.build(P.rtree_any(rnd, rnd.randint(1, 4)))))
+    # results of rewrites (distribution clones the factor: equal ids at different positions)
+    import rulesuite as RS
+    rules = RS.rule_table()
+    for i in range(ctx.n(150, 2000)):
+        root = P.build(P.rtree(rnd, rnd.randint(2, 3)) if rnd.random() < 0.5 else ("mul", P.rterm(rnd), ("add", P.rterm(rnd), P.rterm(rnd))))
+        for _ in range(rnd.randint(1, 3)):
+            cands = [(r, n) for _, _, r in rules for n in nodes(root) if r.can_apply_to(n)]
+            if not cands:
+                break
+            r, n = rnd.choice(cands)
+            try:
+                root = r.apply_to(n.clone_from_root()).result.get_root()
+            except Exception:
+                break
+        trees.append((f"rewritten#{i}", root))
     for s in SH.shapes_upto(5 if ctx.tier == "quick" else 7):
         t = SH.label(s)[0]
         trees.append(("shape " + SH.text(t), SH.build_nodes(t)[0]))
